@@ -812,6 +812,11 @@ def u3_eq(rep, a, LS, RS, where):
         tgt = flag.index(path_of(x["lhs"]))
         side = None
         for g in guards:
+            if g[0] == "if" and g[1]["k"] == "path" and len(g[1]["segs"]) == 1:
+                # `let is_left = <path>.0[0] == Join::left_name(); if is_left { .. } else { .. }`: the nearest preceding definition of the flag
+                defs = [l for l in find(body, "let") if l["pat"]["k"] == "ident" and l["pat"]["name"] == g[1]["segs"][0] and l.get("init") is not None and l["l"] <= x["l"]]
+                if defs:
+                    g = (g[0], max(defs, key=lambda l: l["l"])["init"], g[2])
             if g[0] == "if" and g[1]["k"] == "binary" and g[1]["op"] in ("==", "!="):
                 s = show(g[1], 0)
                 hs = [i for i, nmx in enumerate(("Join::left_name()", "Join::right_name()")) if nmx in s]
